@@ -16,7 +16,7 @@ mod oracle;
 pub const OP_NAMES: &[&str] = &[
     "NewClient", "TickClient", "TickServer", "Deliver", "Drop", "DropAll", "DeliverAll", "GenPayload", "ClientDisconnect", "ServerDisconnect",
     "SetMaxClients", "Junk", "Mutate", "Replay", "ForgeRequest", "ForgeResponse", "ForgeSession", "TamperEnum", "RestartServer", "Teleport",
-    "TokenSurgery", "CrashClient",
+    "TokenSurgery", "CrashClient", "GenBurst",
 ];
 pub const K_NEWCLIENT: u8 = 0;
 pub const K_TICKCLIENT: u8 = 1;
@@ -40,6 +40,7 @@ pub const K_RESTART: u8 = 18;
 pub const K_TELEPORT: u8 = 19;
 pub const K_TOKENSURGERY: u8 = 20;
 pub const K_CRASH: u8 = 21;
+pub const K_GENBURST: u8 = 22;
 
 pub const T_REQUEST: u8 = 0;
 pub const T_DENIED: u8 = 1;
@@ -180,6 +181,7 @@ pub struct WorldB {
     /// violations noticed where no observer is at hand (token issue); flushed by the next apply_op
     pub deferred: Vec<(String, String, String, String)>,
     pub token_roundtrips: u64,
+    pub warm_queue: std::collections::VecDeque<Op>,
 }
 
 pub fn make_world(cfg: &Cfg) -> Box<dyn World> {
@@ -251,7 +253,7 @@ impl WorldB {
                 crashed: false,
             })
             .collect();
-        WorldB {
+        let mut w = WorldB {
             cfg: cfg.clone(),
             rng_installed: true,
             server,
@@ -280,7 +282,26 @@ impl WorldB {
             pend_model: HashMap::new(),
             deferred: Vec::new(),
             token_roundtrips: 0,
+            warm_queue: std::collections::VecDeque::new(),
+        };
+        // optional warm-up (part of the recorded trace, emitted through gen): clients are created and a few clean rounds run,
+        // so that most of the run happens on established sessions
+        if cfg.get("warm") > 0 {
+            for j in 0..nslots as u64 {
+                w.warm_queue.push_back(Op::new(K_NEWCLIENT, j, j, 0, 8));
+            }
+            for _ in 0..cfg.get("warm") {
+                for j in 0..nslots as u64 {
+                    w.warm_queue.push_back(Op::new(K_TICKCLIENT, j, 100, 0, 0));
+                }
+                w.warm_queue.push_back(Op::new(K_TICKSERVER, 100, 0, 0, 0));
+                for j in 0..nslots as u64 {
+                    w.warm_queue.push_back(Op::new(K_DELIVERALL, j, 0, 0, 0));
+                    w.warm_queue.push_back(Op::new(K_DELIVERALL, j, 1, 0, 0));
+                }
+            }
         }
+        w
     }
 
     /// The harness is the token backend. `variant`: 0 genuine; 1 foreign key; 2 foreign protocol id; 3 lists only foreign hosts.
@@ -471,8 +492,9 @@ pub fn gen_cfg(family: &str, rng: &mut Rng) -> Cfg {
         "handshake" => {
             cfg.set("adv", *rng.pick(&[0u64, 1, 2, 2]));
         }
-        "session" => {
+        "session" | "tamper" => {
             cfg.set("adv", *rng.pick(&[0u64, 1, 2]));
+            cfg.set("warm", *rng.pick(&[0u64, 4, 4]));
         }
         "liveness" => {
             cfg.set("adv", *rng.pick(&[0u64, 0, 1]));
